@@ -43,21 +43,30 @@ def tol_class(op):
 
 
 def _target(ds, via):
+    import xarray as xr
+
+    if isinstance(ds, xr.DataArray):
+        return ds.spec
     return ds.spec if via == "ds" else ds["efth"].spec
 
 
-def apply_op(ds, op):
-    """Apply op to Dataset ds (numpy- or dask-backed); returns whatever the library returns."""
+def apply_op(ds, op, aux=None, args=None):
+    """Apply op to ds (Dataset, or DataArray with winds in aux); numpy- or dask-backed.
+
+    `args` optionally maps argument names to caller-owned objects (lists, dicts, arrays) that
+    are passed as they are instead of being rebuilt from the descriptor."""
     m = op["m"]
     kw = dict(op.get("kw", {}))
     via = op.get("via", "da")
     spec = _target(ds, via)
+    args = args or {}
+    wsrc = aux if aux is not None else ds
     if m in SIMPLE_STATS or m in ("momf", "celerity", "wavelen"):
         return getattr(spec, m)(**kw)
     if m == "momd":
         return getattr(spec, m)(**kw)
     if m == "stats":
-        return spec.stats(list(op["stats"]), **kw)
+        return spec.stats(args.get("stats", list(op["stats"])), **kw)
     if m == "split":
         return spec.split(**kw)
     if m == "smooth":
@@ -67,25 +76,29 @@ def apply_op(ds, op):
     if m == "scale_by_hs":
         return spec.scale_by_hs(op["expr"], **kw)
     if m == "interp":
-        freq = None if op.get("freq") is None else np.asarray(op["freq"], dtype=float)
-        dirs = None if op.get("dir") is None else np.asarray(op["dir"], dtype=float)
+        freq = args["freq"] if "freq" in args else (None if op.get("freq") is None else np.asarray(op["freq"], dtype=float))
+        dirs = args["dir"] if "dir" in args else (None if op.get("dir") is None else np.asarray(op["dir"], dtype=float))
         return spec.interp(freq=freq, dir=dirs, **kw)
     if m in ("fit_jonswap", "fit_gaussian"):
         return getattr(spec, m)(**kw)
     if m in PARTITIONS:
         part = spec.partition
         if m in ("ptm1", "ptm2", "ptm4", "ptm1_track"):
-            return getattr(part, m)(wspd=ds["wspd"], wdir=ds["wdir"], dpt=ds["dpt"], **kw)
+            return getattr(part, m)(wspd=wsrc["wspd"], wdir=wsrc["wdir"], dpt=wsrc["dpt"], **kw)
         if m == "hp01":
             if op.get("winds", True):
-                return part.hp01(wspd=ds["wspd"], wdir=ds["wdir"], dpt=ds["dpt"], **kw)
+                return part.hp01(wspd=wsrc["wspd"], wdir=wsrc["wdir"], dpt=wsrc["dpt"], **kw)
             return part.hp01(**kw)
         if m == "ptm3":
             return part.ptm3(**kw)
         if m == "ptm5":
             return part.ptm5(**kw)
         if m == "bbox":
-            return part.bbox([dict(b) for b in op["bboxes"]])
+            return part.bbox(args.get("bboxes", [dict(b) for b in op["bboxes"]]))
+    if m == "sel":
+        lons = args.get("lons", list(op["lons"]))
+        lats = args.get("lats", list(op["lats"]))
+        return ds.spec.sel(lons, lats, **kw)
     raise ValueError(f"unknown op {m}")
 
 
@@ -103,6 +116,8 @@ def gen_op(rng, recipe, pool="all"):
         groups += ["ptm123"] * 4 + ["ptm45", "bbox", "hp01"]
     if pool in ("all", "fit"):
         groups += ["fit"] * 2
+    if not groups:
+        groups = ["stat"] * 6 + ["stat_kw", "stats", "split", "scale"]
     g = rng.choice(groups)
     via = rng.choice(["da", "ds"])
     from .data import make_freq
